@@ -38,14 +38,18 @@ JudgeC04(h) ==
   \E reports \in {{ i \in Idx(h) : /\ h[i].src = "app" /\ h[i].ev = "op_done" /\ Has(h[i], "op")
                                      /\ h[i].op \in WaitingOps /\ i > t }} :
   /\ t > 0
-  /\ reports # {}                         \* the scenario did observe something
+  /\ \E i \in reports : h[i].res = "err"    \* the scenario did observe the termination
   /\ \A i \in reports :
-       /\ h[i].res = "err"                \* never a success, a hang or a timeout
-       /\ IF qc # {} /\ sess.k = "alive" THEN
-            LET c == h[CHOOSE j \in qc : TRUE] IN IsAppClosed(h[i].err, c.code, c.reason)
-          ELSE IF sess.k = "closed" THEN IsAppClosed(h[i].err, sess.code, sess.reason)
-          ELSE IF sess.k = "proto" THEN h[i].err.k # "ApplicationClosed" /\ IsProtoFailure(h[i].err)
-          ELSE FALSE
+       \* a stream the peer had opened BEFORE it ended the session may still be handed over (it was
+       \* received first); anything else is an error - never another success, a hang or a timeout
+       \/ /\ h[i].op \in {"accept_uni", "accept_bi"} /\ h[i].res = "ok"
+          /\ \E j \in Idx(h) : j < t /\ IsEv(h[j], "peer", "peer_open") /\ h[j].id = h[i].id
+       \/ /\ h[i].res = "err"
+          /\ IF qc # {} /\ sess.k = "alive" THEN
+               LET c == h[CHOOSE j \in qc : TRUE] IN IsAppClosed(h[i].err, c.code, c.reason)
+             ELSE IF sess.k = "closed" THEN IsAppClosed(h[i].err, sess.code, sess.reason)
+             ELSE IF sess.k = "proto" THEN h[i].err.k # "ApplicationClosed" /\ IsProtoFailure(h[i].err)
+             ELSE FALSE
 
 Spec == Init /\ [][NextJ(JudgeC04)]_vars
 =============================================================================
